@@ -4,7 +4,7 @@
 cd "$(dirname "$0")/.."
 TIER=${2:-quick}
 for s in $1; do
-  for p in C01 C02 C03 C04 C05 C06 C07 C08 C09 C10 C11 C12 C13 C14 C15 C16 C17 C18 C19 C20; do
+  for p in ${SWEEP_CHECKS:-C01 C02 C03 C04 C05 C06 C07 C08 C09 C10 C11 C12 C13 C14 C15 C16 C17 C18 C19 C20}; do
     out=$(VERIF_SEED=$s VERIF_EVIDENCE_DIR=/tmp/sweep_ev_$$ VERIF_REPLAY_DIR=$PWD/replays_sweep ./check $p --tier $TIER 2>&1)
     rc=$?
     echo "seed=$s $p rc=$rc $(echo "$out" | grep -E "tier=" | cut -c1-150)"
